@@ -35,6 +35,16 @@ def run(ctx):
     for fn in (flat, inh, legacy):
         n += CY.check_ref_loops(ctx, "R1", fn, LOADERS)
     ctx.floor("R1", "reference-following loops in page-tree walkers", n, 3)
+    # R1b: on a LIFO stack filled in reverse, a node that is referenced twice must be claimed by its first occurrence in document
+    # order, i.e. marked when it is popped (visited) — marking it when it is queued hands it to the occurrence pushed first, the last
+    pt = [x for x in getattr(ctx, "push_time_loops", []) if x[0] == flat.id]
+    if pt:
+        ctx.violation("R1b", "flatten_page_tree:visited-marked-when-queued", "flatten_page_tree marks a node as visited when it is "
+                      "queued (%s) rather than when it is popped: kids are queued in reverse on a LIFO stack, so a node referenced "
+                      "more than once is claimed by its last occurrence and the flat page index no longer follows document order"
+                      % L.short(pt[0][2]), flat.where(pt[0][1]))
+    else:
+        ctx.ok("R1b", "flatten_page_tree:visited-marked-when-queued", "the visited test is made when a node is popped", flat.where())
     # R2
     g = CF.cfg(flat)
     loops = g.loops()
